@@ -118,8 +118,8 @@ theorem good_stream : GoodDialect streamDialect := by
     simp [streamDialect, doKeyword, e7]
   · intro st cs n g h
     obtain ⟨h1, h2, h3⟩ := ref_drop_take cs n g
-    have h4 : ¬ ((cs ++ [SObj.int n, SObj.int g]).length < 2) := by simp
-    simp [streamDialect, doKeyword, h, h1, h2, h3, push]
+    simp [streamDialect, doKeyword, h, h2, h3, push]
+    intro hlt; omega
 
 theorem good_obj : GoodDialect objDialect := by
   constructor
@@ -217,7 +217,7 @@ theorem feed_open {D : Dialect} (st : PState) (herr : st.error = none) (name : B
 
 /-- what the end of one loop iteration does with a completed object `o` -/
 def closed (D : Dialect) (st : PState) (o : SObj) : PState :=
-  if st.context.isEmpty && D.flushes then { st with results := st.results ++ (st.curstack ++ [o]), curstack := [] }
+  if st.context.isEmpty && D.flushes then flushHold (push st o)
   else push st o
 
 theorem closed_quiet {D : Dialect} (st : PState) (o : SObj) (h : Quiet D st) : closed D st o = push st o := by
@@ -365,7 +365,7 @@ theorem feedWith_obj_results (st : PState) (t : Token) :
   have tail : ∀ (st1 : PState), (∃ extra, st1.results = st.results ++ extra) →
       ∃ extra, (if st1.error.isSome = true then st1
         else if (st1.context.isEmpty && objDialect.flushes) = true then
-          { st1 with results := st1.results ++ st1.curstack, curstack := [] } else st1).results = st.results ++ extra := by
+          flushHold st1 else st1).results = st.results ++ extra := by
     intro st1 h
     simp only [objDialect, Bool.and_false, Bool.false_eq_true, if_false]
     split <;> exact h
